@@ -871,6 +871,12 @@ def c11(stream, scen=None):
     for i, f in enumerate(fs):
         if f.trigger[0] == 'abort':
             return wit
+        for r in f.results:
+            # marker written by the runner from inside the first shutdown callback of a failing processor
+            if r.startswith('failobs ') and 'holds-at-failure' in r:
+                t = r.split()
+                wit.append(f'frame {i} (t={f.now}): processor {t[1]} announces its failure (part lost, nothing in process) '
+                           f'while it still holds {t[3]}, pool {t[4]}')
         if f.now is None or f.trigger[0] in ('ran', 'runbegin'):
             continue
         devs = devs_of(f.state)
